@@ -165,6 +165,10 @@ class Gen:
         elif x < 0.92: s = self.listline(depth)
         else: s = self.command(depth)
         if self.r.random() < self.multiline_subst: s += '\n' + self.simple(depth, bare=True)
+        elif self.heredocs and self.r.random() < 0.015:
+            # a here-document inside the substitution (read by _parse_comsub)
+            d = self.r.choice(['E', 'EOF'])
+            s += ' ' + self.r.choice(['<<', '<<-', '<< ']) + d + '\n' + self.r.choice(['x\n', '\ty\n', '']) + self.r.choice(['', '\t']) + d + '\n'
         if self.r.random() < 0.1: s = ' ' + s
         if self.r.random() < 0.05: s = s + ' '
         return s
@@ -173,6 +177,7 @@ class Gen:
     def redirect(self, depth, allow_heredoc):
         x = self.r.random()
         fd = self.r.choice(['', '', '', '1', '2', '10'])
+        if self.r.random() < 0.03: fd = self.r.choice(['{v}', '{fd}', '{a1}'])      # named descriptor (REDIR_WORD)
         if x < 0.5: return fd + self.r.choice(['>', '<', '>>', '>|', '<>']) + self.osp() + self.word(depth)
         if x < 0.6: return fd + self.r.choice(['>&', '<&']) + self.r.choice(['1', '2', '-', self.plain()])
         if x < 0.68: return self.r.choice(['&>', '&>>']) + self.osp() + self.word(depth)
@@ -264,6 +269,7 @@ class Gen:
         return self.simple(depth)
     def pipeline(self, depth):
         s = ('!' + self.sp()) if self.r.random() < 0.1 else ''
+        if s and self.r.random() < 0.08: return '!'          # `!` alone (BANG list_terminator)
         s += self.command(depth)
         for _ in range(self.r.choice([0, 0, 0, 0, 1, 1, 2]) if self.budget > 0 else 0):
             s += self.osp() + self.r.choice(['|', '|', '|&']) + (self.osp() if self.r.random() < 0.8 else self.osp() + self.nl()) + self.command(depth)
